@@ -11,6 +11,7 @@ from __future__ import annotations
 import numpy as np
 
 import common
+from gen import translate_small
 from common import g_float, g_nat
 
 RULE = ("pairs of random circuits over {h,x,rx,ry,rz,p,cx,cz,cp,swap,rxx,rzz} incl. gates between distant qubits, n=2..5; "
@@ -96,6 +97,11 @@ def fake_mpo_with_trace(n, t):
     mpo.identity(n)
     mpo.tensors[0] = mpo.tensors[0] * (t / 2**n)
     return mpo
+
+
+def regenerate(ctx):
+    """coq/Gen/SmallGen.v from the current source of check_if_identity / AnalogSimParams.times / the scheduled-jump tests (fail closed)"""
+    translate_small.regenerate()
 
 
 def correspond(ctx):
